@@ -117,7 +117,10 @@ func runC11(c *Ctx) {
 		}
 		nImpl++
 		nMake := 0
-		instrs(f.SSA, func(in ssa.Instruction) {
+		// (the decoder may be split into phases: allocations are looked for in its step helpers too; a size handed in
+		// as a parameter is followed to the caller's value and the caller's tests)
+		c.WalkInl(f.SSA, 2, func(ev InlEvent) {
+			in := ev.In
 			mk, ok := in.(*ssa.MakeSlice)
 			if !ok {
 				return
@@ -125,6 +128,14 @@ func runC11(c *Ctx) {
 			nMake++
 			n := c.E(mk.Len)
 			key := f.Name + " › make #" + itoa(nMake)
+			capBlock := mk.Block()
+			isInput := func(y *X) bool {
+				return y.Op == "extract" && y.Args[0].Op == "call" && (nameMatches(y.Args[0].Name, "go-varint.ReadUvarint") || nameMatches(y.Args[0].Name, "go-varint.FromUvarint")) && y.Name == "0"
+			}
+			if len(ev.Via) > 0 && n.Find(isInput) == nil && n.Find(func(y *X) bool { return y.Op == "param" }) != nil {
+				n = subst(n, ev.Env)
+				capBlock = ev.Via[0].Block()
+			}
 			// values read from the input that the size depends on
 			var inputs []*X
 			n.Contains(func(y *X) bool {
@@ -143,7 +154,7 @@ func runC11(c *Ctx) {
 				if !usedAsLen {
 					continue
 				}
-				k, ok := c.capAt(mk.Block(), v)
+				k, ok := c.capAt(capBlock, v)
 				if ok {
 					c.OK("C11.M2-alloc-bounded", key+" › bound on decoded length", mk.Pos(), "allocation dominated by decoded length <= "+itoa(int(k))+", tested on the decoded value itself")
 				} else {
